@@ -83,6 +83,7 @@ def run(F, R, ctx):
     cross_side_rule(F, R)
     nested_arm_rule(F, R)
     unordered_hash_rule(F, R)
+    length_rule(F, R)
     visited_rules(F, R)
     for v in sorted(hc):
         R.inst("C11.h", "hash arm %s is implemented" % v, hc[v][0] != "panic",
@@ -328,3 +329,84 @@ def unordered_hash_rule(F, R):
                "the dependency's (not analysed).")
         return
     R.floor("C11.o", "hash-backed payload types with a Hash impl", n, 2)
+
+
+VAR_DESC = r"EqualityVisitor\b.*::visit_(immutable_vector|mutable_vector|list|hash_map|hash_set)$"
+SEQ_KINDS = ["ListV", "VectorV", "MutableVector", "HashMapV", "HashSetV"]
+
+
+def length_rule(F, R):
+    from . import c07
+    R.rule("C11.l", "containers of different sizes are never flattened into the comparison queues: in every arm of "
+                    "RecursiveEqualityHandler::visit for a pair of sequence / hash-collection kinds that pushes the elements of "
+                    "both sides onto the two work queues (visit_immutable_vector, visit_mutable_vector, visit_list, … or a "
+                    "push_back loop), the pushes are dominated by a branch comparing a length taken from the left with a length "
+                    "taken from the right. The queues are flat, so without the test two nestings whose length mismatches cancel "
+                    "out — (vector 1 (vector 1)) and (vector (vector 1 1)) — compare equal")
+    fn, tup, top, pair_arm, hdr = _visit_tree(F)
+    maps = c07._backward(fn)
+    dom = fn.dominators()
+    fall = pair_arm("Void", "BoolV")
+
+    def is_len(callee, blk):
+        if re.search(r"::len$", callee):
+            return True
+        if re.search(r"HeapRef<T>\}::borrow$", callee):
+            for e in blk["e"]:
+                if e[0] == "closure" and e[1] in F.fns and F.fns[e[1]].call_blocks(r"::len$"):
+                    return True
+        return False
+    lens = {}
+    for i, b in fn.calls():
+        d = re.match(r"_\d+", b.get("dest") or "")
+        if d and is_len(b["callee"], b):
+            lens[d.group(0)] = i
+    tl = lib.tainted_locals(fn, [tup + ".0"])
+    tr = lib.tainted_locals(fn, [tup + ".1"])
+    n = 0
+    seen = set()
+    for lv in SEQ_KINDS:
+        for rv in SEQ_KINDS:
+            e = pair_arm(lv, rv)
+            if e == fall or e in seen:
+                continue
+            seen.add(e)
+            region = fn.reachable_from([e], avoid=hdr)
+            desc = [b for b in region if fn.blocks[b]["k"] == "call" and (
+                re.search(VAR_DESC, lib.short_name(fn.blocks[b]["callee"])) or
+                (re.search(r"EqualityVisitor\b.*::push_back$", lib.short_name(fn.blocks[b]["callee"])) and
+                 b in fn.reachable_from(fn.succ(b), avoid=hdr)))]
+            if not desc:
+                continue
+            n += 1
+            ok_all = True
+            for dblk in desc:
+                ok = False
+                for sb in dom[dblk]:
+                    if sb not in region and sb != e:
+                        continue
+                    blk = fn.blocks[sb]
+                    if blk["k"] != "switch":
+                        continue
+                    loc = re.match(r"_\d+", blk.get("place", "").strip("()*"))
+                    if not loc:
+                        continue
+                    org = c07._origins(fn, loc.group(0), maps)
+                    ls = [o for o in org if o in lens]
+                    sides = set()
+                    for o in ls:
+                        args = fn.blocks[lens[o]]["args"]
+                        toks = [t for a in args for t in lib.TOK.findall(a)]
+                        if any(t in tl for t in toks):
+                            sides.add("L")
+                        if any(t in tr for t in toks):
+                            sides.add("R")
+                    if sides == {"L", "R"}:
+                        ok = True
+                ok_all = ok_all and ok
+            R.inst("C11.l", "(%s, %s) arm compares the two lengths before flattening" % (lv, rv), ok_all,
+                   "the (%s, %s) arm of RecursiveEqualityHandler::visit pushes the elements of both containers onto the flat "
+                   "work queues without first comparing their lengths: nested containers whose length differences cancel out "
+                   "compare equal — (equal? (vector 1 (vector 1)) (vector (vector 1 1))) => #true" % (lv, rv),
+                   fn.loc(fn.blocks[e].get("line")), sample=True)
+    R.floor("C11.l", "container arms that flatten both sides", n, 5)
